@@ -42,6 +42,13 @@ Record session_opts : Type := mkSess {
   d_keyspace : option Z       (* session keyspace (for the speculative plan only) *)
 }.
 
+(* Where the profile's / the session's consistency level comes from: ExecutionProfile.__init__ records whether a level
+   was passed (_consistency_level_explicit; default LOCAL_ONE = 10 otherwise) and Cluster._set_default_dbaas_consistency
+   (run by connect() and add_execution_profile()) replaces only levels that were NOT chosen by LOCAL_QUORUM = 6 when the
+   cluster is a DBaaS (Astra) one; the legacy session default is LOCAL_QUORUM there until the user assigns one. *)
+Definition configured_cl (dbaas : bool) (chosen : option Z) : Z :=
+  match chosen with Some v => v | None => if dbaas then 6 else 10 end.
+
 (* the `timeout` argument of execute(): _NOT_SET or an explicit value (None = no timeout) *)
 Inductive targ : Type := TNotSet | TSet (v : option Z).
 
@@ -96,6 +103,63 @@ Definition encodes (k : kind) (f : fields) (pv : Z) : bool :=
   end.
 Definition encodes_opt (k : kind) (o : option fields) (pv : Z) : bool :=
   match o with Some f => encodes k f pv | None => true end.
+
+(* ResponseFuture._start_timer when the future is created: is the speculative-execution policy really in effect?
+   delay = plan.next_execution(host) (negative: no speculation); the client timeout may be None (no timeout). *)
+Inductive timer : Type := TSpec (delay : Z) | TTimeout (after : Z) | TNoTimer.
+Definition first_timer (plan : option (Z * option Z)) (delay : Z) (timeout : option Z) : timer :=
+  let by_timeout := match timeout with Some t => TTimeout t | None => TNoTimer end in
+  match plan with
+  | Some _ =>
+      if 0 <=? delay then
+        match timeout with
+        | None => TSpec delay
+        | Some t => if delay <? t then TSpec delay else by_timeout
+        end
+      else by_timeout
+  | None => by_timeout
+  end.
+Definition first_timer_opt (o : option fields) (delay : Z) : timer :=
+  match o with Some f => first_timer (f_spec f) delay (f_timeout f) | None => TNoTimer end.
+Definition timer_eqb (a b : timer) : bool :=
+  match a, b with TSpec x, TSpec y | TTimeout x, TTimeout y => x =? y | TNoTimer, TNoTimer => true | _, _ => false end.
+
+(* Which configuration mode the cluster is in is derived from the history of configuration calls:
+   SetLegacy  = a legacy setting is given: Cluster(load_balancing_policy= / default_retry_policy=), assigning
+                cluster.default_retry_policy / load_balancing_policy or session.default_timeout /
+                default_consistency_level / default_serial_consistency_level / row_factory
+   UseProfiles = Cluster(execution_profiles=)
+   AddProfile  = cluster.add_execution_profile(): refused in legacy mode, but (code as is) it does NOT commit the
+                 cluster to profile mode -- a later legacy assignment is still accepted
+   A call that contradicts the committed mode raises ValueError (None) and changes nothing. *)
+Inductive cmode : Type := Uncommitted | CLegacy | CProfiles.
+Inductive cfg_op : Type := SetLegacy | UseProfiles | AddProfile.
+Definition cfg_step (m : cmode) (o : cfg_op) : option cmode :=
+  match o, m with
+  | SetLegacy, CProfiles => None
+  | SetLegacy, _ => Some CLegacy
+  | UseProfiles, CLegacy => None
+  | UseProfiles, _ => Some CProfiles
+  | AddProfile, CLegacy => None
+  | AddProfile, _ => Some m
+  end.
+(* the application goes on after a ValueError: trace of (accepted?, mode afterwards) *)
+Fixpoint cfg_trace (m : cmode) (ops : list cfg_op) : list (bool * cmode) :=
+  match ops with
+  | [] => []
+  | o :: r => match cfg_step m o with Some m' => (true, m') :: cfg_trace m' r | None => (false, m) :: cfg_trace m r end
+  end.
+Fixpoint cfg_final (m : cmode) (ops : list cfg_op) : cmode :=
+  match ops with [] => m | o :: r => cfg_final (match cfg_step m o with Some m' => m' | None => m end) r end.
+Definition mode_of (m : cmode) : mode := match m with CLegacy => Legacy | _ => Profiles end.
+Definition cmode_eqb (a b : cmode) : bool :=
+  match a, b with Uncommitted, Uncommitted | CLegacy, CLegacy | CProfiles, CProfiles => true | _, _ => false end.
+Fixpoint cfg_trace_eqb (a b : list (bool * cmode)) : bool :=
+  match a, b with
+  | [], [] => true
+  | (x, m) :: a', (y, n) :: b' => Bool.eqb x y && cmode_eqb m n && cfg_trace_eqb a' b'
+  | _, _ => false
+  end.
 
 (* ---------- comparison helpers ---------- *)
 Definition oz_eqb (a b : option Z) : bool :=
